@@ -27,7 +27,7 @@ def run_harness(hexe, seed, n, scenario, out):
         args.append("-scenario=" + scenario)
         if scenario == "tamperfull":
             args[2] = "-n=2"
-    rc, log, dt = L.run(args, timeout=300)
+    rc, log, dt = L.run(args, timeout=900)
     return rc, log
 
 
@@ -52,10 +52,10 @@ def main(prop, prop_v, tier, seed, replay, scenarios, own_prefixes, known_prefix
         if replay:
             jobs.append(("replay", None))
         else:
-            per = 6 if tier == "quick" else 30
+            per = 6 if tier == "quick" else 10
             kinds = scenarios or [None]
             k = 0
-            for rep in range(3 if tier == "quick" else 6):
+            for rep in range(3 if tier == "quick" else 12):
                 for sc in kinds:
                     if sc == "tamperfull" and rep > 0 and tier == "quick":
                         continue   # expensive probe (1000+ submissions per history): once per quick run
